@@ -109,11 +109,30 @@ func scenC13(k *K) {
 			repl++
 		}
 	}
+	// in a third of the runs a local write (and, with feeders, a replication) runs concurrently
+	// with the save: the two goroutines are interleaved at the inserted yield points
+	concurrent := k.C.Chance(1, 3)
+	var cw *Op
+	if concurrent {
+		k.W.Stat("save-concurrent-with-write")
+		tag := c.NextVal(0) + ":concurrent"
+		cw = k.Go(0, "write-during-save", func() (interface{}, error) {
+			ctx, cancel := OpCtx(2 * time.Minute)
+			defer cancel()
+			return c09Write(ctx, T, tag)
+		})
+	}
 	sop := k.Do(0, "save-snapshot", 100, func() (interface{}, error) {
 		ctx, cancel := OpCtx(2 * time.Minute)
 		defer cancel()
 		return basestore.SaveSnapshot(ctx, T)
 	})
+	if cw != nil {
+		for j := 0; j < 50 && !k.IsDone(cw); j++ {
+			k.Step()
+		}
+	}
+	afterSet := LogHashSet(T)
 	if !sop.Done {
 		k.Failf("C13/save-hang", "SaveSnapshot did not return")
 	}
@@ -164,7 +183,21 @@ func scenC13(k *K) {
 			k.Failf("C13/entries-lost", "reloaded store lacks %s; saved %d entries, reloaded %d: %v", c.nameOf(h), entries, len(got), LogNames(st))
 		}
 	}
-	if !inProgress {
+	if concurrent {
+		// the snapshot shows the store either before or after the concurrent write
+		for h := range got {
+			if !afterSet[h] && !inProgress && n == 1 {
+				k.Failf("C13/entries-differ", "reloaded store holds an entry the saved store never had")
+			}
+		}
+		for _, e := range LogValues(st) {
+			for _, nx := range e.GetNext() {
+				if !got[nx.String()] && !inProgress && n == 1 {
+					k.Failf("C13/reloaded-not-closed", "reloaded log holds %s without its predecessor", EntryName(e))
+				}
+			}
+		}
+	} else if !inProgress {
 		if SetKey(got) != wantSet {
 			k.Failf("C13/entries-differ", "reloaded store holds %d entries, saved one held %d", len(got), entries)
 		}
